@@ -14,30 +14,36 @@ Definition sf_same (a b : spec_float) : Prop :=
   | _, _ => False
   end.
 
+Lemma finite_case (m n : positive) (e f : Z) (g : comparison -> comparison) :
+  g Eq = Eq -> g Lt <> Eq -> g Gt <> Eq ->
+  forall X Y, X <> Eq -> Y <> Eq ->
+  (match match (e ?= f)%Z with Eq => g (Pos.compare_cont Eq m n) | Lt => X | Gt => Y end with
+   | Eq => true | _ => false end) = true <-> m = n /\ e = f.
+Proof.
+  intros gE gL gG X Y HX HY.
+  change (Pos.compare_cont Eq m n) with (Pos.compare m n).
+  destruct (Z.compare e f) eqn:He.
+  - apply Z.compare_eq in He. subst f.
+    destruct (Pos.compare m n) eqn:Hm.
+    + apply Pos.compare_eq in Hm. subst. rewrite gE. tauto.
+    + split; [destruct (g Lt); try discriminate; congruence|].
+      intros (-> & _). rewrite Pos.compare_refl in Hm. discriminate.
+    + split; [destruct (g Gt); try discriminate; congruence|].
+      intros (-> & _). rewrite Pos.compare_refl in Hm. discriminate.
+  - split; [destruct X; try discriminate; congruence|].
+    intros (_ & ->). rewrite Z.compare_refl in He. discriminate.
+  - split; [destruct Y; try discriminate; congruence|].
+    intros (_ & ->). rewrite Z.compare_refl in He. discriminate.
+Qed.
+
 Lemma SFeqb_same a b : SFeqb a b = true <-> sf_same a b.
 Proof.
-  unfold SFeqb. destruct a as [s|s| |s m e], b as [t|t| |t n f]; cbn;
-    try (split; [discriminate|contradiction]); try tauto;
-    try (destruct s; split; (discriminate || contradiction)).
-  - destruct t; split; (discriminate || contradiction).
-  - destruct s, t; split; try discriminate; auto.
-  - destruct t; split; (discriminate || contradiction).
-  - destruct t; split; (discriminate || contradiction).
-  - destruct s, t; cbn; try (split; [discriminate | intros (? & _); discriminate]).
-    + destruct (Z.compare e f) eqn:He; try (split; [discriminate | intros (_ & _ & ->); rewrite Z.compare_refl in He; discriminate]).
-      apply Z.compare_eq in He. subst f.
-      change (Pos.compare_cont Eq m n) with (Pos.compare m n).
-      destruct (Pos.compare m n) eqn:Hm; cbn.
-      * apply Pos.compare_eq in Hm. subst. tauto.
-      * split; [discriminate | intros (_ & -> & _); rewrite Pos.compare_refl in Hm; discriminate].
-      * split; [discriminate | intros (_ & -> & _); rewrite Pos.compare_refl in Hm; discriminate].
-    + destruct (Z.compare e f) eqn:He; try (split; [discriminate | intros (_ & _ & ->); rewrite Z.compare_refl in He; discriminate]).
-      apply Z.compare_eq in He. subst f.
-      change (Pos.compare_cont Eq m n) with (Pos.compare m n).
-      destruct (Pos.compare m n) eqn:Hm; cbn.
-      * apply Pos.compare_eq in Hm. subst. tauto.
-      * split; [discriminate | intros (_ & -> & _); rewrite Pos.compare_refl in Hm; discriminate].
-      * split; [discriminate | intros (_ & -> & _); rewrite Pos.compare_refl in Hm; discriminate].
+  unfold SFeqb.
+  destruct a as [s|s| |s m e], b as [t|t| |t n f]; try destruct s; try destruct t; cbn;
+    try tauto;
+    try (split; [discriminate | first [contradiction | discriminate | intros (H & _); discriminate H]]).
+  - rewrite (finite_case m n e f CompOpp); try reflexivity; try discriminate. tauto.
+  - rewrite (finite_case m n e f (fun c => c)); try reflexivity; try discriminate. tauto.
 Qed.
 
 Lemma sf_same_sym a b : sf_same a b -> sf_same b a.
@@ -46,12 +52,12 @@ Proof. destruct a, b; cbn; try tauto; try congruence. intros (-> & -> & ->); aut
 Lemma sf_same_trans a b c : sf_same a b -> sf_same b c -> sf_same a c.
 Proof.
   destruct a, b, c; cbn; try tauto; try congruence.
-  intros (-> & -> & ->) (-> & -> & ->); auto.
+  intros (? & ? & ?) (? & ? & ?); subst; auto.
 Qed.
 
 Lemma prim_eqb_sym x y : PrimFloat.eqb x y = PrimFloat.eqb y x.
 Proof.
-  rewrite !eqb_spec.
+  rewrite !FloatAxioms.eqb_spec.
   destruct (SFeqb (Prim2SF x) (Prim2SF y)) eqn:H1, (SFeqb (Prim2SF y) (Prim2SF x)) eqn:H2; auto.
   - apply SFeqb_same, sf_same_sym, SFeqb_same in H1. congruence.
   - apply SFeqb_same, sf_same_sym, SFeqb_same in H2. congruence.
@@ -60,7 +66,7 @@ Qed.
 Lemma prim_eqb_trans x y z :
   PrimFloat.eqb x y = true -> PrimFloat.eqb y z = true -> PrimFloat.eqb x z = true.
 Proof.
-  rewrite !eqb_spec, !SFeqb_same. apply sf_same_trans.
+  rewrite !FloatAxioms.eqb_spec, !SFeqb_same. apply sf_same_trans.
 Qed.
 
 Theorem feq_laws_binary64 : FeqLaws.
